@@ -268,7 +268,7 @@ TLA_ITEMS = [("g3:toplevel_await", "import asyncio\nx = await asyncio.sleep(0)\n
              ("g3:toplevel_async_for", "async for i in a:\n    print(i)\n", "exec"), ("g3:toplevel_await_unused", "x = 1\ndef f(): return x\n", "exec"),
              ("g3:toplevel_await_eval", "await x", "eval"), ("g3:toplevel_await_single", "await x", "single")]
 FILENAME_SRC = "def f(a):\n    \"doc\"\n    return [a for _ in a]\nclass C:\n    x = lambda: 1\n"
-FILENAMES = ["<unknown>", "<string>", "<stdin>", "", "a b.py", "<module>", "f"]
+FILENAMES = ["<unknown>", "<string>", "<stdin>", "", "a b.py", "<module>", "f", b"caf\xe9.py", "caf\u00e9 \u4e16.py"]
 
 
 def walk_code(code, path=()):
